@@ -792,6 +792,23 @@ func (e *Env) call(n *Node, hint *Sym) *Sym {
 			}
 		}
 		return scalar(types.Typ[types.Bool], mkAnd(cs...))
+	case "others_unchanged":
+		// others_unchanged(p): every object of p's struct type that existed at function entry,
+		// except *p itself, has all its fields as at entry (loop-invariant frame for `p.f = ...` loops)
+		v := e.eval(n.Args[0], nil)
+		pt, ok := v.T.Underlying().(*types.Pointer)
+		if !ok || e.old == nil || e.x.ctr0 == nil {
+			panic("others_unchanged needs a pointer-to-struct expression")
+		}
+		var cs []*Term
+		for _, f := range familiesOf(RStruct, pt.Elem()) {
+			cur, old := e.x.hp.heapGet(e.st, f), e.x.hp.heapGet(e.old, f)
+			if cur.S == old.S {
+				continue
+			}
+			cs = append(cs, mkRaw(fmt.Sprintf("(forall ((r!e Int)) (! (=> (and (<= r!e ctr0) (not (= r!e %s))) (= (select %s r!e) (select %s r!e))) :pattern ((select %s r!e))))", v.term().S, cur.S, old.S, cur.S), SBool))
+		}
+		return scalar(types.Typ[types.Bool], mkAnd(cs...))
 	case "entry_objects_unchanged":
 		// every object of the argument's struct type that existed at function entry has all its
 		// fields as at entry (a heap frame usable as loop invariant)
